@@ -1,10 +1,13 @@
 /-
-  Model of the cell value codec of umya-spreadsheet AS FIXED (fix_1 … fix_4 of C01):
+  Model of the cell value codec of umya-spreadsheet AS FIXED (fix_1 … fix_6 of C01; fix 5: a rich text cached
+  under a formula is written as a shared-string item, `t="s"`; fix 6: `Cell::write_to` writes an unresolved lazy
+  value as the typed value `guess_typed_data` makes of its text):
 
   * `structs/cell_raw_value.rs`, `structs/cell_value.rs`: the typed value, `get_value`,
-    `get_data_type`, `get_data_type_crate` (after fix 2: a formula's cached number / boolean / error
-    keeps its type, only text results are `str`), `guess_typed_data`, the public setters
-  * `structs/cell.rs::write_to`: early return for blank unstyled cells, the `t=` choice, `<f>`/`<v>`
+    `get_data_type`, `get_data_type_crate` (after fix 2 / fix 5: a formula's cached number / boolean / error /
+    rich text keeps its type, only plain text results are `str`), `guess_typed_data`, the public setters
+  * `structs/cell.rs::write_to`: the lazy value resolved first (fix 6, `resolveRaw`), early return for blank
+    unstyled cells, the `t=` choice, `<f>`/`<v>`
     payloads (after fix 1: the `e` arm writes the error's own text), the `s` branch registering the
     value in the shared-string table (`SharedStringTable::set_cell` = find-or-append)
   * `structs/cell.rs::set_attributes` + `structs/cell_formula.rs::set_attributes`: the `t`/`v`/`is`/`f`
@@ -124,7 +127,8 @@ def valueText : RawValue F.Num → Text
   | .err e => e.text
   | _ => []
 
-/-- `CellValue::get_data_type_crate` (after fix 2), on the value and the optional formula -/
+/-- `CellValue::get_data_type_crate` (after fix 2 and fix 5: under a formula a cached number / boolean /
+    error / rich text keeps its own type, every other result is `str`), on the value and the optional formula -/
 def dataTypeOf (raw : RawValue F.Num) (formula : Option Text) : Text :=
   match formula with
   | some _ =>
@@ -132,6 +136,7 @@ def dataTypeOf (raw : RawValue F.Num) (formula : Option Text) : Text :=
      | .num _ => tN
      | .bool _ => tB
      | .err _ => tE
+     | .rich _ => tS
      | _ => tSTR)
   | none => raw.dataType
 
@@ -149,6 +154,20 @@ def guess (s : Text) : RawValue F.Num :=
       match F.parse s with
       | some n => .num n
       | none => .str s
+
+def RawValue.isLazy {N} : RawValue N → Bool
+  | .lazy _ => true
+  | _ => false
+
+/-- the value `Cell::write_to` writes (fix 6): a value stored with `set_value_lazy` and not resolved yet is
+    converted as `get_value_lazy` would (`guess_typed_data` of its text); every other value is written as it is.
+    The cell itself is not changed (`write_to` takes `&self`; it works on a clone). -/
+def resolveRaw : RawValue F.Num → RawValue F.Num
+  | .lazy s => guess F s
+  | r => r
+
+/-- the clone `Cell::write_to` works on: the value resolved, everything else (coordinate, formula, style) kept -/
+def Cell.resolved (c : Cell F.Num) : Cell F.Num := { c with raw := resolveRaw F c.raw }
 
 /-! ## the public setters (`cell_value.rs`) -/
 
@@ -242,7 +261,12 @@ def siOf (it : Item) : SiX :=
 section
 variable (F : NumFmt)
 
-def blankUnstyled (c : Cell F.Num) : Bool := c.raw.isEmpty && c.formula.isNone && !c.styled
+/-- the early return of the body of `write_to`: no value, no formula, no style -/
+def blankCore (c : Cell F.Num) : Bool := c.raw.isEmpty && c.formula.isNone && !c.styled
+
+/-- the cells `Cell::write_to` does not write: blank and unstyled once the value is resolved (the test runs on
+    the clone whose lazy value was converted: a lazy "" without formula and style is skipped like a blank cell) -/
+def blankUnstyled (c : Cell F.Num) : Bool := blankCore F (Cell.resolved F c)
 
 /-- the `t` attribute: written for `s`, `b`, `str`, `e` only -/
 def tAttrOf (dt : Text) : Text := if dt = tS ∨ dt = tB ∨ dt = tSTR ∨ dt = tE then dt else []
@@ -259,10 +283,10 @@ def writeV (tbl : Table) (dt : Text) (raw : RawValue F.Num) : Table × VNode :=
   else if dt = tE then (tbl, .text (escape (valueText F raw)))
   else (tbl, .text (partialEscape (valueText F raw)))
 
-/-- `Cell::write_to`.  Result: `none` = panic (column 0 has no letters); otherwise the table and the
-    `<c>` element written, if any. -/
-def writeTo (tbl : Table) (c : Cell F.Num) : Option (Table × Option CellX) :=
-  if blankUnstyled F c then some (tbl, none)
+/-- `Cell::write_to` after its first statement, i.e. on a cell whose value is not an unresolved lazy one.
+    Result: `none` = panic (column 0 has no letters); otherwise the table and the `<c>` element written, if any. -/
+def writeCore (tbl : Table) (c : Cell F.Num) : Option (Table × Option CellX) :=
+  if blankCore F c then some (tbl, none)
   else
     match coordinateFromIndexWithLock? c.col c.row false false with
     | none => none
@@ -273,6 +297,12 @@ def writeTo (tbl : Table) (c : Cell F.Num) : Option (Table × Option CellX) :=
       else
         let p := writeV F tbl dt c.raw
         some (p.1, some { ref := ref, t := tAttrOf dt, styled := c.styled, f := c.formula.map partialEscape, v := p.2 })
+
+/-- `Cell::write_to` (fix 6): `if let CellRawValue::Lazy(v) = raw { clone; clone.raw = guess_typed_data(v);
+    return clone.write_to(..) }`, then the body `writeCore`.  `guess_typed_data` never returns `Lazy`
+    (`Lemmas/CellXml.lean::guess_not_lazy`), so the inner call runs the body: both paths are `writeCore` of the
+    resolved cell. -/
+def writeTo (tbl : Table) (c : Cell F.Num) : Option (Table × Option CellX) := writeCore F tbl (Cell.resolved F c)
 
 def consOpt {α} : Option α → List α → List α
   | some x, xs => x :: xs
@@ -417,9 +447,10 @@ def readCell (sst : Table) (x : CellX) : Option (Cell F.Num) :=
 def readBook (b : BookX) : Option (List (List (Cell F.Num))) :=
   (mapOpt readSi b.sst).bind fun sst => mapOpt (mapOpt (readCell F sst)) b.sheets
 
-/-- which cells a save keeps: `Cell::write_to` returns early for blank unstyled cells -/
+/-- which cells a save keeps, and with which value: `Cell::write_to` resolves a lazy value, then returns early
+    for blank unstyled cells -/
 def normalize (sheets : List (List (Cell F.Num))) : List (List (Cell F.Num)) :=
-  sheets.map (fun s => s.filter (fun c => !blankUnstyled F c))
+  sheets.map (fun s => (s.filter (fun c => !blankUnstyled F c)).map (Cell.resolved F))
 
 end
 
